@@ -180,6 +180,14 @@ theorem held_set_give (l : List HPc) (i k : Nat) (q : HPc) (hl : l[i]? = some (.
   rw [hq] at this
   simpa [hk_holding] using this
 
+/-- forward version of `List.getElem?_set` for `grind`: an entry of a list that is mentioned is
+    related to the entry of every update of the list that is mentioned -/
+theorem getElem?_set_fwd {α : Type} (l : List α) (i w : Nat) (q : α) :
+    (l.set i q)[w]? = if i = w then (if i < l.length then some q else none) else l[w]? :=
+  List.getElem?_set
+
+grind_pattern getElem?_set_fwd => l[w]?, l.set i q
+
 theorem set_ne_self {α : Type} {l : List α} {i : Nat} {a b : α} (h : l[i]? = some a) (hab : a ≠ b) :
     l.set i b ≠ l := by
   intro heq
